@@ -5,7 +5,7 @@
    exactly the first event on which the query is undefined. *)
 From FV Require Import Base.Prelude Cpp.IR Cpp.Exec Model.Lowering Proofs.LoweringProofs Model.FragTranslate
                        Proofs.FragProofs Model.FragQuery.
-From Coq Require Import QArith Lia.
+From Coq Require Import QArith Lia Permutation.
 Close Scope Q_scope.
 
 (* ================================================================================================ *)
@@ -533,4 +533,67 @@ Proof.
   destruct (f v) eqn:Ef.
   - rewrite (Hg v (or_introl eq_refl) Ef). cbn [rbind]. rewrite (IH Hp' Hg'). reflexivity.
   - apply (IH Hp' Hg').
+Qed.
+
+(* ================================================================================================ *)
+(* (e) consequences for C05 and C02: rows are per event; the program never gets stuck               *)
+(* ================================================================================================ *)
+Definition qrows (q : query) (ev : event) : list (list value) :=
+  match dquery ev q with ROk rws => rws | _ => [] end.
+Definition qdefined (q : query) (ev : event) : Prop := exists rws, dquery ev q = ROk rws.
+
+Lemma djob_from_defined (q : query) : forall evs n acc,
+  (forall ev, In ev evs -> qdefined q ev) -> djob_from q evs n acc = JDone (acc ++ map (qrows q) evs).
+Proof.
+  induction evs as [|ev r IH]; intros n acc H; cbn [djob_from map].
+  - rewrite app_nil_r. reflexivity.
+  - destruct (H ev (or_introl eq_refl)) as (rws & E). unfold qrows at 1. rewrite E.
+    rewrite IH; [|intros e He; apply H; right; exact He]. rewrite <- app_assoc. reflexivity.
+Qed.
+
+(* the rows of a job are the rows of its events, each as if it were alone: nothing carries over *)
+Theorem frag_job_rows (bk : backend) (q : query) (n0 : nat) (evs : list event) :
+  query_ok q = true -> NoDup (bmems (q_body q) (body_start q n0)) ->
+  (forall ev, In ev evs -> qdefined q ev) ->
+  run_job (prog_q bk q n0) evs = JDone (map (qrows q) evs).
+Proof.
+  intros Hq Nd Hd. rewrite (frag_job_correct bk q n0 evs Hq Nd).
+  - unfold djob. rewrite (djob_from_defined q evs 0 [] Hd). reflexivity.
+  - intros ev He. destruct (Hd ev He) as (rws & E). rewrite E. exact I.
+Qed.
+
+Theorem frag_job_permutation (bk : backend) (q : query) (n0 : nat) (evs evs' : list event) :
+  query_ok q = true -> NoDup (bmems (q_body q) (body_start q n0)) ->
+  (forall ev, In ev evs -> qdefined q ev) -> Permutation evs evs' ->
+  exists rss rss', run_job (prog_q bk q n0) evs = JDone rss /\ run_job (prog_q bk q n0) evs' = JDone rss' /\
+                   Permutation rss rss'.
+Proof.
+  intros Hq Nd Hd P. exists (map (qrows q) evs), (map (qrows q) evs'). split; [|split].
+  - apply frag_job_rows; assumption.
+  - apply frag_job_rows; try assumption. intros ev He. apply Hd. eapply Permutation_in; [apply Permutation_sym, P|exact He].
+  - apply Permutation_map, P.
+Qed.
+
+Theorem frag_job_split (bk : backend) (q : query) (n0 : nat) (evs1 evs2 : list event) :
+  query_ok q = true -> NoDup (bmems (q_body q) (body_start q n0)) ->
+  (forall ev, In ev (evs1 ++ evs2) -> qdefined q ev) ->
+  exists r1 r2, run_job (prog_q bk q n0) evs1 = JDone r1 /\ run_job (prog_q bk q n0) evs2 = JDone r2 /\
+                run_job (prog_q bk q n0) (evs1 ++ evs2) = JDone (r1 ++ r2).
+Proof.
+  intros Hq Nd Hd. exists (map (qrows q) evs1), (map (qrows q) evs2). split; [|split].
+  - apply frag_job_rows; try assumption. intros ev He. apply Hd, in_or_app. left; exact He.
+  - apply frag_job_rows; try assumption. intros ev He. apply Hd, in_or_app. right; exact He.
+  - rewrite <- map_app. apply frag_job_rows; assumption.
+Qed.
+
+(* the emitted program never reads an unbound or uninitialised name and never applies an ill-typed operation:
+   wherever the query has a value or is undefined, the job terminates with rows or a fault *)
+Theorem frag_never_stuck (bk : backend) (q : query) (n0 : nat) (ev : event) (ms : frame) :
+  query_ok q = true -> NoDup (bmems (q_body q) (body_start q n0)) -> binit (q_body q) (body_start q n0) ms ->
+  nstuck (dquery ev q) -> nstuck (run_event (prog_q bk q n0) ms ev).
+Proof.
+  intros Hq Nd Mi Hn. pose proof (frag_query_event bk q n0 ev ms Hq Nd Mi) as E.
+  destruct (dquery ev q) as [rws|f|k]; [| |destruct Hn].
+  - destruct E as (ms' & E & _). rewrite E. exact I.
+  - rewrite E. exact I.
 Qed.
